@@ -10,6 +10,7 @@
 """
 from __future__ import annotations
 
+import io
 import itertools
 import json
 
@@ -27,7 +28,8 @@ RULE = (
 )
 REQUIRED_OBS = ["host_pairs", "host_trusted", "host_untrusted", "malformed_hosts", "debugger_cells", "eval_ran", "eval_blocked", "pin_history_nodes", "lockouts_observed",
                 "virtual_seconds_slept", "reach:host_is_trusted", "reach:DebuggedApplication.check_pin_trust", "reach:DebuggedApplication.pin_auth",
-                "reach:DebuggedApplication._fail_pin_auth", "reach:DebuggedApplication.execute_command", "reach:DebuggedApplication.display_console"]
+                "reach:DebuggedApplication._fail_pin_auth", "reach:DebuggedApplication.execute_command", "reach:DebuggedApplication.display_console",
+                "pin_configurations", "real_tracebacks", "real_frame_eval_cells"]
 ASSUMPTIONS = [
     "letter-case variants of a host: either verdict accepted (the property says so)",
     "a dot-prefixed entry also matches the bare domain (werkzeug's documented behaviour, the debugger's own list relies on it)",
@@ -320,6 +322,128 @@ def check_debugger(rec, idx, of):
                         rec.violation("C20/pinauth-authenticated-with-wrong-pin", f"{j}; {cell}", cell, monitor="gate-function")
     rec.observe("virtual_seconds_slept", int(ft.slept))
     rec.sample({"part": "debugger", "evalex": True, "pin_on": True, "cmd": "eval", "secret": "right", "host": "localhost.evil.com", "cookie": "valid", "frame": "known"})
+
+
+VERIF_SIDE = []  # commands evaluated in a real traceback frame of raising_app leave their mark here
+
+
+def raising_app(environ, start_response):
+    marker = environ.get("HTTP_X_MARK", "m")  # noqa: F841  (a local for the console to look at)
+    raise RuntimeError("boom from the application")
+
+
+def check_pin_configuration_and_real_tracebacks(rec, rng):
+    """(2c) Configuration: the PIN comes from WERKZEUG_DEBUG_PIN (absent, 'off', digits with or without dashes, junk) -
+    'off' and nothing else switches the PIN gate off, a configured PIN is the one that authenticates.  And the real
+    thing instead of a spy frame: the application raises, the debugger registers the traceback's frames, and a console
+    command runs in such a frame exactly when every gate is open."""
+    import os
+
+    import werkzeug.debug as dbg
+    from werkzeug.debug import DebuggedApplication, hash_pin
+    from werkzeug.test import create_environ, run_wsgi_app
+
+    ft = FakeTime()
+    dbg.time = ft
+    saved = os.environ.get("WERKZEUG_DEBUG_PIN")
+
+    def call(app, q, host="localhost", cookie=None, path="/", extra=None):
+        env = create_environ(path, query_string=q)
+        env["HTTP_HOST"] = host
+        if cookie:
+            env["HTTP_COOKIE"] = cookie
+        env.update(extra or {})
+        env["wsgi.errors"] = io.StringIO()
+        it, status, hd = run_wsgi_app(app, env)
+        return status, dict(hd), b"".join(it)
+
+    try:
+        for envpin in (None, "off", "123-456-789", "123456789", "1234", "12-34", "abc", "", "off ", "OFF", "0", "12345-67890"):
+            if envpin is None:
+                os.environ.pop("WERKZEUG_DEBUG_PIN", None)
+            else:
+                os.environ["WERKZEUG_DEBUG_PIN"] = envpin
+            app = DebuggedApplication(inner, evalex=True)
+            case = {"part": "pin-config", "WERKZEUG_DEBUG_PIN": envpin}
+            rec.case()
+            rec.nontrivial(("pin-config", envpin))
+            rec.observe("pin_configurations")
+            pin = app.pin
+            digits_given = envpin is not None and envpin.replace("-", "").isdecimal() and envpin.replace("-", "").isascii()
+            if envpin == "off":
+                if pin is not None:
+                    rec.violation("C20/PIN-config:off-not-honoured", f"WERKZEUG_DEBUG_PIN=off but pin is {pin!r}", case, monitor="gate-function")
+                    continue
+            elif pin is None:
+                rec.violation("C20/PIN-config:pin-switched-off-by-" + ("absent-variable" if envpin is None else "another-value"), f"WERKZEUG_DEBUG_PIN={envpin!r}: the PIN gate is off", case, monitor="gate-function")
+                continue
+            elif digits_given and pin.replace("-", "") != envpin.replace("-", ""):
+                rec.violation("C20/PIN-config:configured-pin-not-used", f"WERKZEUG_DEBUG_PIN={envpin!r}: pin is {pin!r}", case, monitor="gate-function")
+                continue
+            elif not digits_given and not (pin.replace("-", "").isdigit() and len(pin.replace("-", "")) == 9):
+                rec.violation("C20/PIN-config:generated-pin-malformed", f"WERKZEUG_DEBUG_PIN={envpin!r}: pin is {pin!r}", case, monitor="gate-function")
+                continue
+            spy = SpyFrame()
+            app.frames[12345] = spy
+            # without a cookie: evaluation runs iff the PIN is switched off
+            call(app, {"__debugger__": "yes", "cmd": "1+1", "frm": "12345", "s": app.secret})
+            if bool(spy.calls) != (pin is None):
+                rec.violation("C20/EVAL-GATE-BYPASS:pin-cookie" if spy.calls else "C20/eval-not-run-although-gate-open", f"WERKZEUG_DEBUG_PIN={envpin!r}, pin {pin!r}, no cookie: eval ran = {bool(spy.calls)}", case, monitor="spy-frame")
+                continue
+            if pin is not None:
+                # the wrong PIN does not authenticate, the configured one does (with or without its dashes)
+                wrong = "9" * len(pin.replace("-", "")) if pin.replace("-", "") != "9" * len(pin.replace("-", "")) else "8" * 9
+                for entered, want in ((wrong, False), (pin.replace("-", ""), True), (pin, True)):
+                    app._failed_pin_auth.value = 0
+                    st, hd, body = call(app, {"__debugger__": "yes", "cmd": "pinauth", "pin": entered, "s": app.secret})
+                    j = json.loads(body)
+                    if bool(j.get("auth")) != want:
+                        rec.violation("C20/pinauth-authenticated-with-wrong-pin" if j.get("auth") else "C20/PIN-config:configured-pin-refused", f"WERKZEUG_DEBUG_PIN={envpin!r}, pin {pin!r}: entering {entered!r} gave {j}", case, monitor="gate-function")
+                        break
+    finally:
+        if saved is None:
+            os.environ.pop("WERKZEUG_DEBUG_PIN", None)
+        else:
+            os.environ["WERKZEUG_DEBUG_PIN"] = saved
+    # ---- a real traceback
+    for pin_on in (True, False):
+        app = DebuggedApplication(raising_app, evalex=True, pin_security=pin_on)
+        cname = app.pin_cookie_name if pin_on else "__wzdX"
+        if pin_on:
+            app.pin = "111-222-333"
+        good = f"{cname}={int(ft.now)}|{hash_pin('111-222-333')}"
+        for page_host in ("localhost", "evil.example"):
+            app.frames.clear()
+            st, hd, body = call(app, {}, host=page_host, extra={"HTTP_X_MARK": "seen-by-console"})
+            case = {"part": "real-traceback", "pin_on": pin_on, "page_host": page_host}
+            rec.case()
+            rec.nontrivial(("real-traceback", pin_on, page_host))
+            rec.observe("real_tracebacks")
+            if not st.startswith("500") or not app.frames:
+                rec.violation("C20/traceback-page-not-produced", f"{st}, {len(app.frames)} frames registered; {case}", case, monitor="gate-function")
+                continue
+            if page_host != "localhost" and b"EVALEX = true" in body:
+                rec.violation("C20/CONSOLE-GATE-BYPASS", f"the traceback page served to Host {page_host!r} has evaluation switched on", case, monitor="gate-function")
+                continue
+            frame_ids = [fid for fid, fr in app.frames.items() if getattr(getattr(fr, "code", None), "co_name", "") == "raising_app"] or list(app.frames)
+            fid = frame_ids[-1]
+            for host, secret, cookie in itertools.product(("localhost", "evil.example", "localhost.evil.example"), ("right", "wrong"), ("valid", "absent")):
+                VERIF_SIDE.clear()
+                q = {"__debugger__": "yes", "cmd": "__import__('verif.props.c20_host_trust_debugger').props.c20_host_trust_debugger.VERIF_SIDE.append(marker)", "frm": str(fid),
+                     "s": app.secret if secret == "right" else "nope"}
+                st2, hd2, body2 = call(app, q, host=host, cookie=good if cookie == "valid" else None)
+                cell = dict(case, host=host, secret=secret, cookie=cookie)
+                rec.case()
+                rec.nontrivial(("real-frame-eval", pin_on, page_host, host, secret, cookie))
+                rec.observe("real_frame_eval_cells")
+                open_ = host == "localhost" and secret == "right" and (cookie == "valid" or not pin_on)
+                if VERIF_SIDE and not open_:
+                    missing = [nm for nm, okk in (("trusted-host", host == "localhost"), ("secret", secret == "right"), ("pin-cookie", cookie == "valid" or not pin_on)) if not okk]
+                    rec.violation("C20/EVAL-GATE-BYPASS:" + "+".join(missing), f"a command ran in a real traceback frame although {missing} not satisfied; {cell}", cell, monitor="real-frame")
+                    break
+                if open_ and VERIF_SIDE != ["seen-by-console"]:
+                    rec.violation("C20/eval-not-run-although-gate-open", f"real traceback frame: side effects {VERIF_SIDE!r}, answer {st2} {body2[:80]!r}; {cell}", cell, monitor="real-frame")
+                    break
 
 
 def check_debugger_histories_and_schedules(rec, rng):
@@ -683,6 +807,7 @@ def run(shard, rec, rng):
     check_debugger(rec, idx, of)
     if idx % 8 == 3:
         check_debugger_histories_and_schedules(rec, rng)
+        check_pin_configuration_and_real_tracebacks(rec, rng)
     check_pin_histories(rec, idx, min(of, 27), cfg["hist_len"]) if idx < 27 else None
     reach.finish()
 
